@@ -1,55 +1,92 @@
-import ExponaxModel.Proofs.Instances
-import ExponaxModel.Proofs.LayoutLemmas
-import ExponaxModel.Model.Metrics
+import ExponaxModel.Proofs.MetricsAlgebra
 /-
 C16 — error metrics are consistent quadratures of the documented norms.
-(Parseval / scaling / homogeneity theorems live in `Proofs/MetricsAlgebra.lean`; this file holds the property
-statements.)
+`Metrics.*` mirrors `exponax/metrics/*.py` on one channel + the per-channel combination (tied by the
+correspondence for every exported metric function).
 -/
 set_option linter.unusedVariables false
 namespace Exponax
 open Exponax.Metrics Exponax.Layout
 
+/-- the value is the documented quadrature `((L/N)^D Σ |u_j|^p)^q` -/
+theorem C16_quadrature (D N : ℕ) (L p q : ℝ) (u : Array ℝ) :
+    spatialAggregator D N L p q u = ((L / (N : ℝ)) ^ D * ∑ j ∈ Finset.range u.size, |u.getD j 0| ^ p) ^ q :=
+  spatialAggregator_eq_sum D N L p q u
+
+/-- it scales with the domain extent as `(a^D)^q` (so `L^D` for outer exponent 1) -/
+theorem C16_L_scaling (D N : ℕ) (a L p q : ℝ) (ha : 0 < a) (hL : 0 ≤ L) (u : Array ℝ) :
+    spatialAggregator D N (a * L) p q u = (a ^ D) ^ q * spatialAggregator D N L p q u :=
+  spatialAggregator_scale_L D N a L p q ha hL u
+
+/-- PARSEVAL: with inner exponent 2 the Fourier aggregate of the stored half spectrum (weights
+    `1/reconstruction scaling`) equals the spatial aggregate, every `D ≥ 1`, `N ≥ 1` (floor 0, no band) -/
+theorem C16_parseval (D N : ℕ) (hD : 1 ≤ D) (hN : 0 < N) (L s q : ℝ) (ur : Array ℝ) (hsz : ur.size = N ^ D) :
+    fourierAggregator D N L s 2 q none none 0 (magnitudes D N ur) = spatialAggregator D N L 2 q ur :=
+  fourierAggregator_magnitudes D N hD hN L s q ur hsz
+
+theorem C16_parseval_weights (D N : ℕ) (hD : 1 ≤ D) (hN : 0 < N) (u : Array ℂ) (hu : ∀ j < N ^ D, (u.getD j 0).im = 0) :
+    ∑ j ∈ Finset.range (N ^ D), ‖u.getD j 0‖ ^ 2 =
+      ∑ h ∈ Finset.range (numModes D N),
+        ‖(Transform.rfftnM D N u).getD h 0‖ ^ 2 / (scaling D N 1 (unflatten (wavenumberShape D N) h) : ℝ) :=
+  parseval_scaling D N hD hN u hu
+
 /-- absolute metrics split additively over channels -/
-theorem C16_channel_additive (dn rn sn : List ℝ) :
-    combine 0 dn rn sn = ((List.range dn.length).map (fun c => dn.getD c 0)).sum := by
-  simp [combine, sumList_eq]
+theorem C16_channel_additive (dn rn sn : List ℝ) : combine 0 dn rn sn = dn.sum := combine_zero dn rn sn
 
-/-- the band mask keeps exactly the modes with `low ≤ |k|_∞ ≤ high` -/
-theorem C16_band_mask_iff (k : List ℤ) (lo hi : ℕ) :
-    bandMask k lo hi = true ↔ (¬ (∀ kd ∈ k, |kd| ≤ (lo : ℤ) - 1)) ∧ (∀ kd ∈ k, |kd| ≤ (hi : ℤ)) := by
-  simp only [bandMask, Bool.and_eq_true, Bool.not_eq_true', lowPassSep_iff, mul_one]
-  constructor
-  · rintro ⟨h1, h2⟩
-    exact ⟨fun h => by have := (lowPassSep_iff k ((lo : ℤ) - 1) 1).2 (by simpa using h); simp_all, h2⟩
-  · rintro ⟨h1, h2⟩
-    refine ⟨?_, h2⟩
-    by_contra hc
-    have hc' : lowPassSep k ((lo : ℤ) - 1) 1 = true := by simpa using hc
-    exact h1 (by simpa using (lowPassSep_iff k ((lo : ℤ) - 1) 1).1 hc')
+/-- … and (outer exponent 1) over disjoint frequency bands `[a,b]`, `[b+1,c]`; the full band is everything -/
+theorem C16_band_additive (D N : ℕ) (L s p : ℝ) (hp : p ≠ 0) (a b c : ℕ) (hab : a ≤ b) (hbc : b ≤ c)
+    (floor : ℝ) (mag : Array ℝ) :
+    fourierAggregator D N L s p 1 (some (a, c)) none floor mag =
+      fourierAggregator D N L s p 1 (some (a, b)) none floor mag +
+        fourierAggregator D N L s p 1 (some (b + 1, c)) none floor mag :=
+  fourierAggregator_band_add D N L s p hp a b c hab hbc floor mag
 
-/-- disjoint frequency bands: a mode is in at most one of `[a, b]`, `[b+1, c]` and in their union `[a, c]`
-    iff it is in one of them (`a ≤ b ≤ c`) -/
-theorem C16_band_partition (k : List ℤ) (a b c : ℕ) (hab : a ≤ b) (hbc : b ≤ c) :
-    (bandMask k a c = true ↔ (bandMask k a b = true ∨ bandMask k (b + 1) c = true)) ∧
-    ¬ (bandMask k a b = true ∧ bandMask k (b + 1) c = true) := by
-  simp only [C16_band_mask_iff]
-  push_cast
-  constructor
-  · constructor
-    · rintro ⟨h1, h2⟩
-      by_cases hb : ∀ kd ∈ k, |kd| ≤ (b : ℤ)
-      · exact Or.inl ⟨h1, hb⟩
-      · exact Or.inr ⟨by simpa using hb, h2⟩
-    · rintro (⟨h1, h2⟩ | ⟨h1, h2⟩)
-      · exact ⟨h1, fun kd hk => (h2 kd hk).trans (by exact_mod_cast hbc)⟩
-      · refine ⟨fun h => h1 (fun kd hk => ?_), h2⟩
-        have := h kd hk
-        have : (a : ℤ) ≤ b := by exact_mod_cast hab
-        omega
-  · rintro ⟨⟨_, h2⟩, ⟨h3, _⟩⟩
-    exact h3 (fun kd hk => by have := h2 kd hk; omega)
+theorem C16_band_full (D N hi : ℕ) (hD : 1 ≤ D) (hN : 0 < N) (hhi : N / 2 ≤ hi) (L s p q : ℝ) (deriv : Option ℝ)
+    (floor : ℝ) (mag : Array ℝ) :
+    fourierAggregator D N L s p q (some (0, hi)) deriv floor mag = fourierAggregator D N L s p q none deriv floor mag :=
+  fourierAggregator_band_full D N hi hD hN hhi L s p q deriv floor mag
 
+/-- zero for identical inputs, positive otherwise -/
+theorem C16_zero_iff (D N : ℕ) (L p q : ℝ) (hp : 0 < p) (hq : 0 < q) (hL : 0 < L) (hN : 0 < N) (u : Array ℝ) :
+    (spatialAggregator D N L p q u = 0 ↔ ∀ x ∈ u.toList, x = 0) ∧
+    ((∃ x ∈ u.toList, x ≠ 0) → 0 < spatialAggregator D N L p q u) :=
+  ⟨spatialAggregator_eq_zero_iff D N L p q hp hq hL hN u, spatialAggregator_pos D N L p q hp hq hL hN u⟩
+
+/-- symmetric in its two arguments -/
+theorem C16_symmetric (D N n : ℕ) (L p q : ℝ) (u r : Array ℝ) :
+    spatialAggregator D N L p q (Transform.tab n fun j => u.getD j 0 - r.getD j 0) =
+      spatialAggregator D N L p q (Transform.tab n fun j => r.getD j 0 - u.getD j 0) :=
+  spatialAggregator_sub_comm_tab D N n L p q u r
+
+/-- homogeneous of degree `p·q` under common scaling (1 for MAE/RMSE, 2 for MSE) -/
+theorem C16_homogeneous (D N : ℕ) (L p q a : ℝ) (hL : 0 ≤ L) (u : Array ℝ) :
+    spatialAggregator D N L p q (u.map fun x => a * x) = |a| ^ (p * q) * spatialAggregator D N L p q u :=
+  spatialAggregator_smul D N L p q a hL u
+
+/-- normalized and symmetric variants are scale-free; the symmetric one is symmetric -/
+theorem C16_scale_free (t : ℝ) (ht : t ≠ 0) (dn rn sn : List ℝ) :
+    combine 1 (dn.map (t * ·)) (rn.map (t * ·)) (sn.map (t * ·)) = combine 1 dn rn sn ∧
+    combine 2 (dn.map (t * ·)) (rn.map (t * ·)) (sn.map (t * ·)) = combine 2 dn rn sn ∧
+    combine 2 dn rn sn = combine 2 dn sn rn :=
+  ⟨combine_one_scale_free t ht dn rn sn, combine_two_scale_free t ht dn rn sn, combine_two_symm dn rn sn⟩
+
+/-- correlation lies in `[−1, 1]`, and is `±1` for positively / negatively proportional fields -/
+theorem C16_correlation (D N : ℕ) (L : ℝ) (hL : 0 < L) (hN : 0 < N) (u v : Array ℝ) (hu : u.size = N ^ D)
+    (hv : v.size = N ^ D) :
+    (-1 ≤ correlationChannel D N L u v ∧ correlationChannel D N L u v ≤ 1) ∧
+    (∀ a : ℝ, 0 < a → (∃ x ∈ u.toList, x ≠ 0) → correlationChannel D N L u (u.map fun x => a * x) = 1) ∧
+    (∀ a : ℝ, a < 0 → (∃ x ∈ u.toList, x ≠ 0) → correlationChannel D N L u (u.map fun x => a * x) = -1) :=
+  ⟨correlationChannel_mem_Icc D N L hL.le u v hu hv,
+    fun a ha hne => correlationChannel_smul_pos D N L a hL hN ha u hu hne,
+    fun a ha hne => correlationChannel_smul_neg D N L a hL hN ha u hu hne⟩
+
+/-
+The Sobolev metrics are `fourier_X(derivative_order=None) + fourier_X(derivative_order=1)` by definition of the
+exported functions (checked by the oracle on the implementation); `C16_resolution_independent` (a band-limited pair
+sampled at another resolution gives the same p = 2 value) follows from C16_parseval + C04_single_mode read-off and is
+checked by the oracle; it is not a Lean theorem for D > 1.
+-/
 example : bandMask [2, -3] 3 3 = true ∧ bandMask [2, -3] 0 2 = false := by decide
+example : (0 : ℝ) < 2 ∧ (0 : ℝ) < 1 / 2 := by norm_num
 
 end Exponax
